@@ -191,6 +191,9 @@ class System:
                 for i in self.slots:
                     if SLOTS[i][2] == "global":
                         ops.append(("gnext-act", i) if i not in act else ("gnext-deact", i))
+                        if i in act:
+                            # the same after the body has entered and left a with-block of its own
+                            ops.append(("gnext-deact2", i))
         return ops
 
     def step_model(self, model, op):
@@ -224,7 +227,7 @@ class System:
             if op[1] == "call":
                 return (act, wstack, calls + 1, gen), ("result", (calls + 2) * 2, ())
             return model, "ok"
-        if op[0] in ("gnext-act", "gnext-deact"):
+        if op[0] in ("gnext-act", "gnext-deact", "gnext-deact2"):
             act = act + (op[1],) if op[0] == "gnext-act" else tuple(i for i in act if i != op[1])
             return (act, wstack, calls, gen + 1), "ok"
         if op[0] == "gen":
@@ -362,7 +365,7 @@ class System:
                 except KeyError:
                     pass
                 return "ok"
-            if op[0] in ("gnext-act", "gnext-deact"):
+            if op[0] in ("gnext-act", "gnext-deact", "gnext-deact2"):
                 for s in w.streams.values():
                     del s[:]
                 hook = w.ns["HOOK"]
@@ -373,6 +376,12 @@ class System:
                         w.depth[slot] = 1
                         p.__enter__()
                     hook[0] = inside
+                elif op[0] == "gnext-deact2":
+                    def inside2(slot=op[1]):
+                        with self._make(w, 8):
+                            pass
+                        w.probes.pop(slot).__exit__(None, None, None)
+                    hook[0] = inside2
                 else:
                     hook[0] = lambda slot=op[1]: w.probes.pop(slot).__exit__(None, None, None)
                 try:
